@@ -10,12 +10,11 @@
      free_parameter.py  FreeParameterAnalysis.modify_model
      model_analysis.py  ModelAnalysis, CombinedModelAnalysis.modify_model
 
-   The snapshot 75ee8d3 had six defects touching the property; all six are repaired in /repo
-   (1e4dc27, c4fcf7f, ab776e6, 1799c30, 1298d8e, 1b618eb).  The model is parametrised by a record
-   saying which repairs the modelled code contains: `cfg_now` is /repo as it stands (every repair),
-   `cfg_snapshot` the historical snapshot and `cfg_round1` the tree after the first four repairs
-   (kept so that a regression has a name and a proved description).  One defect remains: (a + b) + free-parameter sum is accepted silently
-   (known finding; proposed repair = flag fix_free_right, contained in `cfg_fixed` only). *)
+   The snapshot 75ee8d3 had seven defects touching the property; all seven are repaired in /repo
+   (1e4dc27, c4fcf7f, ab776e6, 1799c30, 1298d8e, 1b618eb, 9d1b558).  The model is parametrised by a
+   record saying which repairs the modelled code contains: `cfg_now` is /repo as it stands (every
+   repair); `cfg_snapshot`, `cfg_round1` (first four repairs) and `cfg_round2` (first six) are
+   historical trees, kept so that a regression has a name and a proved description. *)
 From Coq Require Import ZArith List Bool Arith Lia.
 Import ListNotations.
 
@@ -26,12 +25,13 @@ Record cfg := mkCfg {
   fix_map   : bool;     (* AnalysisPool.map gives analysis i the folder analysis_i          (1799c30) *)
   fix_free_own : bool;  (* FreeParameterAnalysis.modify_model frees inside the analysis' own model (1298d8e) *)
   fix_model_hooks : bool; (* ModelAnalysis forwards save_attributes / save_results to the wrapped analysis (1b618eb) *)
-  fix_free_right : bool  (* combined + FreeParameterAnalysis raises TypeError like the other three orders (proposed) *)
+  fix_free_right : bool  (* combined + FreeParameterAnalysis raises TypeError like the other three orders (9d1b558) *)
 }.
 Definition cfg_snapshot := mkCfg false false false false false false false.
 Definition cfg_round1 := mkCfg true true true true false false false.
-Definition cfg_now := mkCfg true true true true true true false.
-Definition cfg_fixed := mkCfg true true true true true true true.
+Definition cfg_round2 := mkCfg true true true true true true false.
+Definition cfg_now := mkCfg true true true true true true true.
+Definition cfg_fixed := cfg_now.
 
 (* ------------------------------------------------------------------------------------ *)
 (* A. the algebra of `+`                                                                 *)
@@ -82,7 +82,7 @@ Definition add (c : cfg) (a b : aval) : aval :=
       if fix_order c then construct c k (IPlain j h :: its)
       else construct c k (its ++ [IPlain j h])
   | VComb k its, VSingle j h => construct c k (its ++ [IPlain j h])
-  | VComb k its, VComb KFree its' =>         (* proposed repair: TypeError, as for the other three orders *)
+  | VComb k its, VComb KFree its' =>         (* since 9d1b558: TypeError, as for the other three orders *)
       if fix_free_right c then VErr else construct c k (its ++ its')
   | VComb k its, VComb _ its' => construct c k (its ++ its')
   end.
